@@ -44,6 +44,20 @@ func (m c12) Run(ctx *core.Ctx) {
 			start = gen.Pick(r, []string{"http://h/?", "a://h/?", "a:p?"}) + gen.QueryString(r)
 		}
 		cs := &core.Case{Check: "interleaving", Input: core.S(start), N: r.IntN(2)}
+		if r.IntN(4) == 0 {
+			cs.Config = []string{gen.Pick(r, []string{"allownonbasepath", "skipequals", "lax", "singlepercent", "report"})}
+			if r.IntN(2) == 0 {
+				cs.Config = append(cs.Config, "allownonbasepath")
+			}
+		}
+		if r.IntN(80) == 0 {
+			// a list just beyond a small/large cut-off, looked up by name before anything else
+			n := gen.Pick(r, gen.ThresholdSizes[:6])
+			for j := 0; j < n; j++ {
+				cs.Ops = append(cs.Ops, sOp("sp.append", gen.Pick(r, []string{"a", "b", "c", "k"}), fmt.Sprint(j), "0"))
+			}
+			cs.Ops = append(cs.Ops, sOp("lookup", "a"), sOp("lookup", "k"))
+		}
 		k := 1 + r.IntN(10)
 		for j := 0; j < k; j++ {
 			var op core.Op
@@ -103,13 +117,34 @@ func implSerialize(kind string, pairs []refmodel.Pair) string {
 	return sp.String()
 }
 
+// implSerializeWith: as implSerialize, with the parser the URL under test was made by.
+func implSerializeWith(p url.Parser, kind string, pairs []refmodel.Pair) string {
+	if p == nil {
+		return implSerialize(kind, pairs)
+	}
+	w, err := p.Parse(kind)
+	if err != nil {
+		return "<cannot build reference URL>"
+	}
+	sp := w.SearchParams()
+	for _, pr := range pairs {
+		sp.Append(pr.Name, pr.Value)
+	}
+	return sp.String()
+}
+
 func (c12) Exec(ctx *core.Ctx, cs *core.Case) {
 	input := string(cs.Input)
-	u, err, pan := parseImpl(ctx, nil, input, "", false, false)
+	var parser url.Parser
+	if len(cs.Config) > 0 {
+		parser = buildParser(cs.Config)
+	}
+	u, err, pan := parseImpl(ctx, parser, input, "", false, false)
 	if pan != nil || err != nil || u == nil {
 		ctx.Count("start_rejected")
 		return
 	}
+	seenNames := map[string]bool{}
 	var handles []*url.SearchParams
 	if cs.N == 1 {
 		handles = append(handles, u.SearchParams()) // a handle obtained before anything else
@@ -122,7 +157,15 @@ func (c12) Exec(ctx *core.Ctx, cs *core.Case) {
 	for i, op := range cs.Ops {
 		where := fmt.Sprintf("after step %d %s", i, clipS(op.String(), 120))
 		beforeQuery := u.Query()
-		beforeHrefQ := hrefQuery(u.Href(false))
+		// the query part is cut out of Href only under the default parser: with relaxing options
+		// (lax host parsing) a host may contain '?', so the text of Href cannot be cut reliably
+		hq := func() string {
+			if parser != nil {
+				return u.Query()
+			}
+			return hrefQuery(u.Href(false))
+		}
+		beforeHrefQ := hq()
 		var beforeStrings []string
 		for _, h := range handles {
 			beforeStrings = append(beforeStrings, h.String())
@@ -130,6 +173,17 @@ func (c12) Exec(ctx *core.Ctx, cs *core.Case) {
 		switch {
 		case op.Name == "refetch":
 			handles = append(handles, u.SearchParams())
+			continue
+		case op.Name == "lookup":
+			if len(handles) == 0 {
+				handles = append(handles, u.SearchParams())
+			}
+			for _, h := range handles {
+				_ = h.Get(op.Arg(0))
+				_ = h.Has(op.Arg(0))
+				_ = h.GetAll(op.Arg(0))
+			}
+			seenNames[op.Arg(0)] = true
 			continue
 		case strings.HasPrefix(op.Name, "sp."):
 			if len(handles) == 0 {
@@ -155,14 +209,17 @@ func (c12) Exec(ctx *core.Ctx, cs *core.Case) {
 			}
 			interesting = true
 			ctx.Count("sp_mutations")
+			if len(op.Args) > 1 {
+				seenNames[op.Arg(0)] = true
+			}
 			want := h.String()
-			q, s, hq := u.Query(), u.Search(), hrefQuery(u.Href(false))
+			q, s, hqv := u.Query(), u.Search(), hq()
 			wantSearch := ""
 			if want != "" {
 				wantSearch = "?" + want
 			}
-			if q != want || s != wantSearch || hq != want {
-				ctx.Violate("after a SearchParams mutation the URL's query differs from the list's serialization", want, fmt.Sprintf("Query=%q Search=%q href-query=%q", q, s, hq), where)
+			if q != want || s != wantSearch || hqv != want {
+				ctx.Violate("after a SearchParams mutation the URL's query differs from the list's serialization", want, fmt.Sprintf("Query=%q Search=%q href-query=%q", q, s, hqv), where)
 				return
 			}
 			// every other handle describes the same list
@@ -187,11 +244,26 @@ func (c12) Exec(ctx *core.Ctx, cs *core.Case) {
 				handles = append(handles, u.SearchParams())
 			}
 			expected := refmodel.ParseURLEncoded(u.Query())
+			inNew := map[string]bool{}
+			for _, p := range expected {
+				inNew[p.Name] = true
+			}
+			for name := range seenNames {
+				if inNew[name] || strings.ContainsRune(refmodel.Scalar(name), 0xFFFD) {
+					continue
+				}
+				for k, h := range handles {
+					if h.Has(name) || h.Get(name) != "" || len(h.GetAll(name)) != 0 {
+						ctx.Violate("after SetSearch a handle still answers for a name that is not in the new query", "Has=false", fmt.Sprintf("Has(%q)=%v Get=%q", name, h.Has(name), h.Get(name)), fmt.Sprintf("%s (handle %d, query %q)", where, k, u.Query()))
+						return
+					}
+				}
+			}
 			if v == "" && (u.Query() != "" || len(expected) != 0) {
 				ctx.Violate("SetSearch(\"\") left a query", "", u.Query(), where)
 				return
 			}
-			wantStr := implSerialize(kind, expected)
+			wantStr := implSerializeWith(parser, kind, expected)
 			for k, h := range handles {
 				if got := h.String(); got != wantStr {
 					ctx.Violate("after SetSearch a SearchParams handle does not equal the urlencoded parse of the new query", wantStr, got,
@@ -220,7 +292,7 @@ func (c12) Exec(ctx *core.Ctx, cs *core.Case) {
 				return
 			}
 			ctx.Count("other_setters")
-			if u.Query() != beforeQuery || hrefQuery(u.Href(false)) != beforeHrefQ {
+			if u.Query() != beforeQuery || hq() != beforeHrefQ {
 				ctx.Violate("a setter other than search changed the query", beforeQuery, u.Query(), where)
 				return
 			}
